@@ -854,13 +854,15 @@ where
     A: ArrayValidExt + ArrayFromDataExt,
 {
     assert_eq!(a.len(), b.len());
+    // a row takes `a` only when the condition is valid *and* true; NULL and FALSE take `b`
+    let s_true = s.to_raw_bitvec().and(s.get_valid_bitmap());
     let it = a
         .raw_iter()
         .zip(b.raw_iter())
-        .zip(s.raw_iter())
-        .map(|((a, b), s)| if *s { a } else { b });
-    let mut valid = s.get_valid_bitmap().and(a.get_valid_bitmap());
-    valid.or(&s.get_valid_bitmap().not_then_and(b.get_valid_bitmap()));
+        .zip(s_true.iter().by_vals())
+        .map(|((a, b), s)| if s { a } else { b });
+    let mut valid = s_true.and(a.get_valid_bitmap());
+    valid.or(&s_true.not_then_and(b.get_valid_bitmap()));
     A::from_data(it, valid)
 }
 
